@@ -241,6 +241,7 @@ type c04CfgGen struct {
 	paths  []string
 	maxDep int
 	optSel bool // inside a rule whose selector addresses options (by_name = object.option)
+	inType int  // > 0 while the payload of an ast.Type is being generated
 }
 
 var c04CfgKinds = []string{"scalar", "ref", "array", "map", "struct", "enum", "disjunction", "intersection", "constant_ref", "composable_slot"}
@@ -256,6 +257,9 @@ func (g *c04CfgGen) isTypeDef(name string) bool {
 // inside a list) are the ones that reach cog's own code; arbitrary shapes are kept at a lower rate
 func (g *c04CfgGen) wrong() *c04JNode {
 	g.faults++
+	if g.inType > 0 {
+		g.asbad = true // a wrong-shaped value inside a type description can null a kind payload
+	}
 	switch g.r.intn(10) {
 	case 0, 1, 2:
 		return c04JNull()
@@ -370,11 +374,13 @@ func (g *c04CfgGen) astType(depth int, def *c04CfgTy) *c04JNode {
 		}
 	}
 	if payloadKey != "" {
+		g.inType++
 		for _, f := range def.Fields {
 			if f.Key == payloadKey {
 				n.set(payloadKey, g.gen(f.Ty, f.Key, depth+1))
 			}
 		}
+		g.inType--
 	}
 	if r.chance(20) {
 		n.set("nullable", c04JBool(true))
@@ -676,7 +682,7 @@ func c04ConfigCase(r *rng, files map[string]*c04CfgFile, seeds []c04Seed, i int,
 
 // hand-written configuration documents: one per suspected mechanism
 func c04ConfigCorpus() []*c04Case {
-	schema := []byte(`{"$schema":"http://json-schema.org/draft-07/schema#","definitions":{"Foo":{"type":"object","properties":{"a":{"type":"string"},"b":{"type":"boolean"}},"required":["a"]},"K":{"type":"string","const":"k"}},"type":"object","properties":{"foo":{"$ref":"#/definitions/Foo"}}}`)
+	schema := []byte(`{"$schema":"http://json-schema.org/draft-07/schema#","definitions":{"Foo":{"type":"object","properties":{"a":{"type":"string"},"b":{"type":"boolean"}},"required":["a"]},"K":{"type":"string","const":"k"}},"type":"object","properties":{"foo":{"$ref":"#/definitions/Foo"},"k":{"$ref":"#/definitions/K"}}}`)
 	input := `inputs: [{jsonschema: {path: '%__config_dir%/in/schema.json', package: corpus}}]`
 	out := `output: {directory: 'out/%l', types: true, builders: true, converters: true, languages: [{go: {package_root: example.com/lab}}, {python: {}}, {typescript: {}}, {java: {}}, {php: {}}]}`
 	mk := func(name, cog, passes, veneers string) *c04Case {
